@@ -306,7 +306,8 @@ func userInGroup(service *admin.Service, group string, email string) bool {
 	req := service.Members.HasMember(group, email)
 	r, err := req.Do()
 	if err == nil {
-		return r.IsMember
+		// a response body of `null` decodes to a nil result
+		return r != nil && r.IsMember
 	}
 
 	gerr, ok := err.(*googleapi.Error)
@@ -327,7 +328,7 @@ func userInGroup(service *admin.Service, group string, email string) bool {
 
 		// If the non-domain user is found within the group, still verify that they are "ACTIVE".
 		// Do not count the user as belonging to a group if they have another status ("ARCHIVED", "SUSPENDED", or "UNKNOWN").
-		if r.Status == "ACTIVE" {
+		if r != nil && r.Status == "ACTIVE" {
 			return true
 		}
 	default:
